@@ -176,6 +176,8 @@ def _compare_generic_type_args(
     """Compare the arguments of generic types for compatibility."""
     if not required_args or not incoming_args:
         return True
+    if len(incoming_args) != len(required_args) and Ellipsis not in (*incoming_args, *required_args):
+        return False
     return all(is_type_compatible(t1, t2, memo) for t1, t2 in zip(incoming_args, required_args))
 
 
